@@ -24,6 +24,9 @@ def gen(seed, tier):
     cases = []
     for i in range(120 if tier == "quick" else 1200):
         d = r.choice([1, 5, 60, 600])
+        if i % 15 == 14:
+            # extreme but legal limits: nothing can expire within the history
+            d = r.choice([9223372036854775807, 10 ** 13, 10 ** 12, 2 ** 31, 2 ** 32])
         o = {"d": d}
         if r.random() < 0.5:
             o["U"] = 1
@@ -34,7 +37,7 @@ def gen(seed, tier):
         segs = [seg(t, [g.any_frame(target)] + filler(g, r.randint(0, 3), others))]
         for _ in range(r.randint(2, 6)):
             # silence of the target on either side of / exactly at the limit (times are multiples of 500 ms)
-            dt = r.choice([d * 1000 - 1500, d * 1000 - 500, d * 1000, d * 1000 + 500, d * 1000 + 1500, 500, 2 * d * 1000])
+            dt = r.choice([d * 1000 - 1500, d * 1000 - 500, d * 1000, d * 1000 + 500, d * 1000 + 1500, 500, 2 * d * 1000]) if d <= 600 else r.choice([500, 60000, 3600000])
             t += max(0, dt)
             k = r.random()
             if k < 0.35:
